@@ -516,7 +516,7 @@ def main(argv):
                 # the ACCESS sites (frame #0 of each stack in the report) must be inside /repo: a race between two harness
                 # statements that merely run on a library thread is a harness bug, not a finding
                 sites = re.findall(r'^\s*#0 \S+ (?:in )?\S+ (/\S+?):\d+', rep, re.M)
-                in_repo = any(sx.startswith('/repo/') for sx in sites) if sites else ('/repo/lib' in rep)
+                in_repo = any(sx.startswith(REPO + '/') for sx in sites) if sites else ((REPO + '/lib') in rep)
                 if arm.get('threads') and m and in_repo:
                     for _ in range(12):   # try harder to reproduce before falling back to the recorded report
                         s2, t2 = run_replay(exe, tape, a.tier, arm.get('env'), 600, is_fuzz)
